@@ -175,11 +175,15 @@ func ovpnMutate(r Rand, in []byte, tcp bool) []byte {
 			msg[tail] = pick[byte](r, "ovpn.tailbyte", 1, 2, 0x0f, 0xff)
 		}
 	case 8: // wrapped key length field
-		if msg[0] == ovpnOpResetV3 && len(msg) > 56 {
+		if msg[0] == ovpnOpResetV3 && len(msg) > 56 && coin(r, "ovpn.wkclen-generic") {
 			return ovpnFrame(mutateLenField(r, msg, []lenField{{off: len(msg) - 2, width: 2}}, "ovpn.wkclen"), tcp)
 		}
-		msg = ovpnCrypt2(r)
-		putBE16(msg, len(msg)-2, pick(r, "ovpn.badwkclen", 0, 289, 290, 1024, 1025, 65535))
+		if msg[0] != ovpnOpResetV3 || len(msg) <= 56 {
+			msg = ovpnCrypt2(r)
+		}
+		// the trailing length against the limits of the format and against the message it sits in
+		n := len(msg)
+		putBE16(msg, n-2, pick(r, "ovpn.badwkclen", 0, 289, 290, n-2, n-1, n, n+1, n+60, 1024, 1025, 65535))
 	case 9: // wrapped key size boundary values
 		enc := pick(r, "ovpn.wkcsize", 0, 1, 255, 256, 989, 990, 991, 2000)
 		wkc := cat(opaque(r, 32, "ovpn.wkctag"), opaque(r, enc, "ovpn.wkc"))
